@@ -1,3 +1,4 @@
+import LibconfigModel.Generated.Constants
 import LibconfigModel.TreeSpec
 import LibconfigModel.WF
 import LibconfigModel.Step
@@ -125,5 +126,13 @@ def sample : Node :=
 
 example : (sample.remove false (some [98, 46, 99])).map (fun r => r.1.kids.map fun k => (k.name, k.kids.map (·.name))) =
     some [(some [97], []), (some [98], [some [100]])] := by decide
+
+/-- Bridge: option bits, format codes and `config_init` defaults of this run's sources are the
+documented ones the model uses. -/
+theorem C05_constants :
+    Generated.CONFIG_OPTION_ALLOW_OVERRIDES = OPT_ALLOW_OVERRIDES ∧ Generated.CONFIG_OPTION_AUTOCONVERT = OPT_AUTOCONVERT ∧
+    Generated.CONFIG_FORMAT_DEFAULT = FMT_DEFAULT ∧ Generated.CONFIG_FORMAT_HEX = FMT_HEX ∧
+    Generated.INIT_OPTIONS = Config.init.options ∧ Generated.INIT_TAB_WIDTH = Config.init.tabWidth ∧
+    Generated.INIT_FLOAT_PRECISION = Config.init.floatPrecision ∧ Generated.INIT_DEFAULT_FORMAT = Config.init.defaultFormat := by decide
 
 end Libconfig.C05
